@@ -11,7 +11,7 @@ use vlib::{Args, Value, json};
 
 pub fn run<P: Pat>(args: &Args) -> Value {
     let root = args.get("root").expect("--root");
-    let config = util::make_config(&format!("{root}/o{}", P::NAME), &format!("c6{}o{}_", args.get_or("tag", ""), P::NAME), 20_000);
+    let config = util::make_config(&format!("{root}/o{}{}", P::NAME, util::run_token(args)), &format!("c6{}o{}_", util::run_token(args), P::NAME), 20_000);
     let set = cfg_set(P::NAME, false);
     let name: ServiceName = "c06/steps".try_into().unwrap();
     let mut results = vec![];
